@@ -556,9 +556,14 @@ def examine(A, T, ops, report):
                 if started != verdict[1]:
                     report('wellformed_not_executed', 'a well-formed message was not executed as its commands, '
                            'in order', started=[(a, b, c.hex()) for a, b, c in started], **where)
-                elif s.msg != '' or any(o != L.O_TRUE for o in outs):
-                    report('wellformed_not_clean', 'a well-formed message did not answer True to every byte '
-                           'or left the parser busy', outs=outs[-4:], **where)
+                else:
+                    # the frame proper ends at its declared length; bytes after it (present only in
+                    # corrupted-length inputs, and free of start bytes, see spec_verdict) are discarded
+                    declared = struct.unpack('<I', data[4:8])[0]
+                    if s.msg != '' or any(o != L.O_TRUE for o in outs[:declared]) \
+                            or any(o != L.O_FALSE for o in outs[declared:]):
+                        report('wellformed_not_clean', 'a well-formed message did not answer True to every byte '
+                               'or left the parser busy', outs=outs[-4:], **where)
             else:
                 if started or after != before:
                     report('malformed_not_dropped_whole', 'a message that is not well-formed started commands or '
@@ -574,6 +579,8 @@ def examine(A, T, ops, report):
                    **where)
         # per command: answers, echo, refused commands change nothing.  Commands of one message go
         # to distinct subsystems, so `before` is the state each of them saw.
+        if len({e[0] for e in ev}) != len(ev):
+            continue        # more than one message completed inside this feed: no single `before` state
         for sub, cid, cmd, t, exn in ev:
             name = {1: 'AZ', 2: 'EL'}.get(sub)
             if name is None or len(cmd) != 26:
@@ -622,10 +629,26 @@ def examine(A, T, ops, report):
                            'command was not executed', **w)
 
 
+def corpus_files(prop, prefix='acmd_'):
+    """minimised past cases kept in /verif/corpus/<prop>/acmd_*.json (run first on every run)"""
+    import glob
+    import json
+    import os
+    d = os.path.join(os.path.dirname(os.path.dirname(os.path.abspath(__file__))), 'corpus', prop)
+    out = []
+    for f in sorted(glob.glob(os.path.join(d, prefix + '*.json'))):
+        try:
+            out.append((os.path.basename(f), json.load(open(f))))
+        except Exception:      # an unreadable corpus file must not break the check
+            continue
+    return out
+
+
 def oracle(ctx):
     T = tables(ctx)
     pool = double_pool(T, ctx.rng)
     histories = [('corpus', mk()) for mk in CORPUS]
+    histories += [('corpus', ops_from_json(js['history'])) for _, js in corpus_files('C14') if 'history' in js]
     for _ in range(ctx.n(500, 8000)):
         histories.append(('directed', directed_history(ctx, T, pool, [])))
     for _ in range(ctx.n(500, 8000)):
